@@ -70,6 +70,19 @@ pub fn output_tokens(
         _ => panic!(),
     };
 
+    // `Impl<T>` takes its associated types from `T`. There is no `T: Trait` to take them
+    // from when delegating through a `dyn Trait` or through a delegation target trait:
+    if let Some(associated_type) = out_trait.associated_types.first() {
+        if attr.impl_trait.is_some()
+            || matches!(attr.delegation_kind, Some(SpanOpt(Delegate::ByRef(_), _)))
+        {
+            return Err(syn::Error::new(
+                associated_type.item.ident.span(),
+                "Associated types are only supported when delegating to `Self`",
+            ));
+        }
+    }
+
     let delegation_trait_def = gen_impl_delegation_trait_defs(
         &out_trait,
         &trait_dependency_mode,
@@ -92,6 +105,7 @@ pub fn output_tokens(
         &out_trait.generics,
         &out_trait.supertraits,
         &out_trait.fns,
+        &out_trait.associated_types,
         &FnInputMode::RawTrait(LiteralAttrs(&out_trait.attrs)),
     )?;
 
@@ -127,6 +141,18 @@ pub fn output_tokens(
             )
         });
 
+    let impl_t = &generic_idents.impl_t;
+    let type_items = out_trait.associated_types.iter().map(|associated_type| {
+        let attrs = &associated_type.item.attrs;
+        let ident = &associated_type.item.ident;
+        let (impl_generics, type_generics, type_where_clause) =
+            associated_type.item.generics.split_for_impl();
+        quote! {
+            #(#attrs)*
+            type #ident #impl_generics = <#impl_t as #trait_ident #args>::#ident #type_generics #type_where_clause;
+        }
+    });
+
     let out = quote! {
         #trait_def
 
@@ -134,6 +160,7 @@ pub fn output_tokens(
 
         #(#impl_sub_attributes)*
         #trait_unsafety impl #params #trait_ident #args for #self_ty #where_clause {
+            #(#type_items)*
             #(#method_items)*
         }
     };
@@ -214,6 +241,7 @@ fn gen_impl_delegation_trait_defs(
                     bounds: syn::parse_quote! { 'static },
                 },
                 &trait_copy.fns,
+                &[],
                 &FnInputMode::RawTrait(LiteralAttrs(&[])),
             )?;
 
@@ -275,6 +303,7 @@ fn gen_impl_delegation_trait_defs(
                     bounds: syn::parse_quote! { 'static },
                 },
                 &trait_copy.fns,
+                &[],
                 &FnInputMode::RawTrait(LiteralAttrs(&[])),
             )?;
 
